@@ -191,3 +191,178 @@ def frame_switch(body):
 def result_blocks(body, pred):
     """Blocks assigning `_0` a value whose rendering satisfies pred (statement results) or whose callee does (calls)."""
     return sorted(b for b, r in zero_assigns(body).items() if pred(r))
+
+
+# ---------------------------------------------------------------------------- K7: exact cell evaluation of small enum-state functions
+class CellEval:
+    """Push ONE fully concrete cell (values of the argument places) through a MIR body deterministically.
+
+    Values: bool / int / str / (variant, {field: value}) for enum aggregates / ('call', name, [args]) for opaque calls.
+    `args`: dict arg-index -> value (an arg that is `&mut State` holds the State value; stores through it update it).
+    Result of run(): dict(kind='return'|'panic'|'unknown', ret=value, args=final arg values, calls=[names], why=text).
+    Nothing of the analysed program is executed: statements are interpreted over this finite value domain only; any
+    construct outside the domain makes the cell 'unknown' (fail closed)."""
+
+    def __init__(self, body, max_steps=400):
+        self.b = body
+        self.max_steps = max_steps
+
+    class Unknown(Exception):
+        pass
+
+    def _place(self, p, env, args):
+        l = p["l"]
+        if 1 <= l <= self.b.argc:
+            v = args.get(l, ("?arg%d" % l,))
+        elif l in env:
+            v = env[l]
+        else:
+            raise CellEval.Unknown("read of unset local _%d" % l)
+        for pr in p.get("pr", ()):
+            k = pr["k"]
+            if k == "deref":
+                continue
+            if k == "downcast":
+                if not (isinstance(v, tuple) and len(v) == 2 and isinstance(v[1], dict)) or v[0] != pr["v"]:
+                    raise CellEval.Unknown("downcast %s of %r" % (pr["v"], v))
+                continue
+            if k == "field":
+                if isinstance(v, tuple) and len(v) == 2 and isinstance(v[1], dict) and pr["n"] in v[1]:
+                    v = v[1][pr["n"]]
+                    continue
+                raise CellEval.Unknown("field %s of %r" % (pr["n"], v))
+            raise CellEval.Unknown("projection %s" % k)
+        return v
+
+    def _operand(self, o, env, args):
+        k = o["k"]
+        if k in ("copy", "move"):
+            return self._place(o["p"], env, args)
+        if k == "const":
+            if "v" in o:
+                v = _to_int(o["v"])
+                if o.get("ty") == "bool":
+                    return bool(v)
+                return v
+            if "s" in o:
+                return o["s"]
+            if o.get("ty") == "()":
+                return ()
+            return ("const", o.get("t") or o.get("def") or "?")
+        raise CellEval.Unknown("operand %s" % k)
+
+    def _rvalue(self, r, env, args):
+        k = r["k"]
+        if k == "use":
+            return self._operand(r["o"], env, args)
+        if k in ("ref", "rawptr", "copyderef"):
+            return self._place(r["p"], env, args)
+        if k == "discr":
+            v = self._place(r["p"], env, args)
+            if isinstance(v, tuple) and len(v) == 2 and isinstance(v[1], dict):
+                return ("discr", v[0])
+            raise CellEval.Unknown("discriminant of %r" % (v,))
+        if k == "agg":
+            ops = [self._operand(o, env, args) for o in r["ops"]]
+            if r["ak"] == "adt":
+                fields = r.get("fields", [])
+                return (r["variant"], {fields[i] if i < len(fields) else str(i): ops[i] for i in range(len(ops))})
+            if r["ak"] == "tuple":
+                return ("tuple", {str(i): ops[i] for i in range(len(ops))})
+            raise CellEval.Unknown("aggregate %s" % r["ak"])
+        if k == "cast":
+            return self._operand(r["o"], env, args)
+        if k == "un" and r["op"] == "Not":
+            v = self._operand(r["a"], env, args)
+            if isinstance(v, bool):
+                return not v
+        if k == "bin" and r["op"] in ("Eq", "Ne"):
+            a, b = self._operand(r["a"], env, args), self._operand(r["b"], env, args)
+            return (a == b) if r["op"] == "Eq" else (a != b)
+        raise CellEval.Unknown("rvalue %s" % k)
+
+    def _store(self, p, v, env, args):
+        l = p["l"]
+        prs = [pr for pr in p.get("pr", ()) if pr["k"] != "deref"]
+        if prs:
+            raise CellEval.Unknown("partial store")
+        if 1 <= l <= self.b.argc:
+            args[l] = v
+        else:
+            env[l] = v
+
+    def run(self, args):
+        b = self.b
+        env, args = {}, dict(args)
+        calls = []
+        bi, steps = 0, 0
+        try:
+            while True:
+                steps += 1
+                if steps > self.max_steps:
+                    return dict(kind="unknown", why="step budget", args=args, calls=calls, ret=None)
+                blk = b.blocks[bi]
+                for st in blk["stmts"]:
+                    if st["k"] == "assign":
+                        self._store(st["p"], self._rvalue(st["r"], env, args), env, args)
+                t = blk["term"]
+                k = t["k"]
+                if k in ("goto", "falseedge", "falseunwind", "drop"):
+                    bi = t["t"]
+                elif k == "return":
+                    return dict(kind="return", ret=env.get(0, ()), args=args, calls=calls, why="")
+                elif k == "switch":
+                    v = self._operand(t["o"], env, args)
+                    info = b.switch_info(bi)
+                    lab = v[1] if isinstance(v, tuple) and v[0] == "discr" else ("true" if v is True else "false" if v is False else v)
+                    nxt = [tg for tg, ls in info[1].items() if lab in ls]
+                    if len(nxt) != 1:
+                        nxt = [tg for tg, ls in info[1].items() if "otherwise" in ls]
+                    if len(nxt) != 1:
+                        raise CellEval.Unknown("switch on %r has no unique target" % (v,))
+                    bi = nxt[0]
+                elif k == "call":
+                    name = strip_generics(b.call_name(t))
+                    calls.append(name)
+                    if "t" not in t:
+                        return dict(kind="panic", ret=None, args=args, calls=calls, why=name)
+                    vals = []
+                    for a in t["args"]:
+                        try:
+                            vals.append(self._operand(a, env, args))
+                        except CellEval.Unknown:
+                            vals.append("?")
+                    self._store(t["d"], ("call", name, vals), env, args)
+                    bi = t["t"]
+                elif k == "assert":
+                    bi = t["t"]
+                elif k == "unreachable":
+                    return dict(kind="unknown", why="reached `unreachable`", args=args, calls=calls, ret=None)
+                else:
+                    raise CellEval.Unknown("terminator %s" % k)
+        except CellEval.Unknown as e:
+            return dict(kind="unknown", why=str(e), args=args, calls=calls, ret=None)
+
+
+def _to_int(v):
+    try:
+        return int(v)
+    except (TypeError, ValueError):
+        return v
+
+
+def show_val(v):
+    """Canonical short text of a CellEval value."""
+    if isinstance(v, bool):
+        return "true" if v else "false"
+    if isinstance(v, tuple) and len(v) == 2 and isinstance(v[1], dict):
+        if not v[1]:
+            return v[0]
+        if v[0] == "tuple" and not v[1]:
+            return "()"
+        return "%s{%s}" % (v[0], ", ".join("%s: %s" % (f, show_val(x)) for f, x in v[1].items()))
+    if isinstance(v, tuple) and len(v) == 3 and v[0] == "call":
+        return "%s(%s)" % (v[1].split("::")[-1], ", ".join(show_val(x) for x in v[2]))
+    if v == ():
+        return "()"
+    return str(v)
